@@ -2,6 +2,8 @@ package props
 
 import (
 	"fmt"
+	m2 "github.com/goark/go-cvss/v2/metric"
+	m3 "github.com/goark/go-cvss/v3/metric"
 	"strings"
 	"testing"
 
@@ -260,8 +262,76 @@ var checkC14 = register("C14/vector", func(c vecCase) string {
 	if m := c14Once(c, true); m != "" {
 		return "after the top-level object was queried first: " + m
 	}
+	if !c.NilRecv {
+		preAccess = true
+		m := c14Once(c, false)
+		preAccess = false
+		if m != "" {
+			return "with the accessors called on the constructor result before its Decode: " + m
+		}
+	}
 	return ""
 })
+
+// preAccess makes decodeForC14 call the accessors on the fresh constructor result before the
+// Decode (what they return then is discarded).
+var preAccess bool
+
+func decode3ForC14(lv spec.Level, s string, nilRecv bool) (obj3, error) {
+	if !preAccess || nilRecv {
+		return decode3(lv, s, nilRecv)
+	}
+	o := obj3{level: lv}
+	var err error
+	switch lv {
+	case spec.Temporal:
+		r := m3.NewTemporal()
+		r.BaseMetrics()
+		o.T, err = r.Decode(s)
+		if o.T != nil {
+			o.B = o.T.BaseMetrics()
+		}
+	case spec.Environmental:
+		r := m3.NewEnvironmental()
+		r.BaseMetrics()
+		r.TemporalMetrics().BaseMetrics()
+		o.E, err = r.Decode(s)
+		if o.E != nil {
+			o.T, o.B = o.E.TemporalMetrics(), o.E.BaseMetrics()
+		}
+	default:
+		return decode3(lv, s, nilRecv)
+	}
+	return o, err
+}
+
+func decode2ForC14(lv spec.Level, s string, nilRecv bool) (obj2, error) {
+	if !preAccess || nilRecv {
+		return decode2(lv, s, nilRecv)
+	}
+	o := obj2{level: lv}
+	var err error
+	switch lv {
+	case spec.Temporal:
+		r := m2.NewTemporal()
+		r.BaseMetrics()
+		o.T, err = r.Decode(s)
+		if o.T != nil {
+			o.B = o.T.BaseMetrics()
+		}
+	case spec.Environmental:
+		r := m2.NewEnvironmental()
+		r.BaseMetrics()
+		r.TemporalMetrics().BaseMetrics()
+		o.E, err = r.Decode(s)
+		if o.E != nil {
+			o.T, o.B = o.E.TemporalMetrics(), o.E.BaseMetrics()
+		}
+	default:
+		return decode2(lv, s, nilRecv)
+	}
+	return o, err
+}
 
 func c14Once(c vecCase, topFirst bool) string {
 	lv := spec.Level(c.Level)
@@ -273,7 +343,7 @@ func c14Once(c vecCase, topFirst bool) string {
 		if !ok {
 			return ""
 		}
-		o, err := decode3(lv, c.Input, c.NilRecv)
+		o, err := decode3ForC14(lv, c.Input, c.NilRecv)
 		if err != nil || o.isNil() {
 			return fmt.Sprintf("accepted vector rejected: %v", err)
 		}
@@ -317,7 +387,7 @@ func c14Once(c vecCase, topFirst bool) string {
 	if !ok {
 		return ""
 	}
-	o, err := decode2(lv, c.Input, c.NilRecv)
+	o, err := decode2ForC14(lv, c.Input, c.NilRecv)
 	if err != nil || o.isNil() {
 		return fmt.Sprintf("accepted vector rejected: %v", err)
 	}
@@ -330,13 +400,13 @@ func c14Once(c vecCase, topFirst bool) string {
 	}
 	independentBase := snapViews(views2(ob.B, nil, nil, spec.Base))[0]
 	if lv == spec.Temporal {
-		if o.T.BaseMetrics() == nil || o.T.BaseMetrics() != o.T.Base {
-			return "BaseMetrics() of a decoded temporal object is nil or not the embedded Base"
+		if o.T.BaseMetrics() == nil {
+			return "BaseMetrics() of a decoded temporal object is nil"
 		}
 		return sameView("base view of temporal object", snapViews(views2(o.T.BaseMetrics(), nil, nil, spec.Base))[0], independentBase)
 	}
-	if o.E.BaseMetrics() == nil || o.E.TemporalMetrics() == nil || o.E.BaseMetrics() != o.E.Base || o.E.TemporalMetrics() != o.E.Temporal {
-		return "accessors of a decoded environmental object are nil or not the embedded objects"
+	if o.E.BaseMetrics() == nil || o.E.TemporalMetrics() == nil {
+		return "an accessor of a decoded environmental object returns nil"
 	}
 	ot, err := decode2(spec.Temporal, spec.ProjectV2(ref, spec.Temporal).String(), false)
 	if err != nil {
@@ -846,6 +916,6 @@ func c14Complete(c *ctx) {
 func TestC14(t *testing.T) {
 	extraStage = c14Complete
 	defer func() { extraStage = nil }()
-	vectorPropertyTest(t, "C14", checkC14, sweepRule+"Oracle: BaseMetrics() / TemporalMetrics() of the decoded object (and the base view of the temporal view) versus an independent NewBase / NewTemporal decode of the reference projection of the vector (v3: prefix plus the tokens of the lower level in written order; v2: cut at the group boundary): equal score, severity, encoding and encoding error; accessors non-nil; v2 accessors return the exported embedded objects; each case is evaluated in two query orders (lower views first / top-level object queried completely first). Additionally all 73,629 v2 base x temporal vectors are decoded at the environmental decoder without and with a hash-chosen environmental group (complete). Only temporal and environmental decoders are exercised. Non-trivial as C09.",
+	vectorPropertyTest(t, "C14", checkC14, sweepRule+"Oracle: BaseMetrics() / TemporalMetrics() of the decoded object (and the base view of the temporal view) versus an independent NewBase / NewTemporal decode of the reference projection of the vector (v3: prefix plus the tokens of the lower level in written order; v2: cut at the group boundary): equal score, severity, encoding and encoding error; accessors non-nil; each case is evaluated in two query orders (lower views first / top-level object queried completely first). Additionally all 73,629 v2 base x temporal vectors are decoded at the environmental decoder without and with a hash-chosen environmental group (complete). Only temporal and environmental decoders are exercised. Non-trivial as C09.",
 		[]string{"projection computed by the reference tokenizer"}, spec.Temporal)
 }
